@@ -33,6 +33,7 @@ type level struct {
 	Al    Alphabet
 	K     int
 	PnAll bool // the permanode takes every arrival position (else: first; always every position when a delete targets it)
+	Desc  bool // also run the search.Handler.Describe layer
 }
 
 func levels() []level {
@@ -40,19 +41,19 @@ func levels() []level {
 	with := func(a Alphabet, f func(*Alphabet)) Alphabet { f(&a); return a }
 	if vk.Thorough() {
 		return []level{
-			{"k1-full", full, 1, true},
-			{"k2-full", full, 2, true},
-			{"k3-full/dense,a~b", with(full, func(a *Alphabet) { a.DenseDates, a.SymVal = true, true }), 3, true},
+			{"k1-full", full, 1, true, true},
+			{"k2-full", full, 2, true, true},
+			{"k3-full/dense,a~b", with(full, func(a *Alphabet) { a.DenseDates, a.SymVal = true, true }), 3, true, false},
 			{"k4-tag,{a,a b&c|d},del@A,t1/dense,A~B", with(full, func(a *Alphabet) {
 				a.Attrs, a.Vals, a.DelSigners, a.DelRanks, a.DenseDates, a.SymSig = 1, 2, 1, 1, true, true
 				a.valMap = []int{0, 2}
-			}), 4, false},
+			}), 4, false, false},
 		}
 	}
 	return []level{
-		{"k1-full", full, 1, true},
-		{"k2-full/dense,a~b", with(full, func(a *Alphabet) { a.DenseDates, a.SymVal = true, true }), 2, true},
-		{"k3-full/dense,a~b,A~B,tag~title", with(full, func(a *Alphabet) { a.DenseDates, a.SymVal, a.SymSig, a.SymAttr = true, true, true, true }), 3, false},
+		{"k1-full", full, 1, true, true},
+		{"k2-full/dense,a~b", with(full, func(a *Alphabet) { a.DenseDates, a.SymVal = true, true }), 2, true, true},
+		{"k3-tag,del@t1/dense,a~b,A~B", with(full, func(a *Alphabet) { a.Attrs, a.DelRanks, a.DenseDates, a.SymVal, a.SymSig = 1, 1, true, true, true }), 3, false, false},
 	}
 }
 
@@ -147,6 +148,28 @@ func runScenario(b *built, arrival []int, scn string) (*checker, error) {
 			return b.checkCorpus(scLoaded, ix, corp, arrival), nil
 		}
 		return b.checkIndexRows(scRestart, ix), nil
+	case scDescInc:
+		x, corp, err := b.feed(arrival, true)
+		if err != nil {
+			return nil, err
+		}
+		return b.checkDescribe(scn, x.Index, corp, arrival), nil
+	case scDescLive:
+		x, _, err := b.feed(arrival, false)
+		if err != nil {
+			return nil, err
+		}
+		return b.checkDescribe(scn, x.Index, nil, arrival), nil
+	case scDescLoaded:
+		x, _, err := b.feed(arrival, true)
+		if err != nil {
+			return nil, err
+		}
+		ix, corp, err := reopen(x.KV, true)
+		if err != nil {
+			return nil, err
+		}
+		return b.checkDescribe(scn, ix, corp, arrival), nil
 	}
 	return nil, fmt.Errorf("unknown scenario %q", scn)
 }
@@ -185,6 +208,15 @@ func (r *runner) report(lv string, b *built, arrival []int, ck *checker) {
 		what := fmt.Sprintf("claims {%s}, arrival order %s: %s", b.c, arrivalText(arrival), m.Detail)
 		r.res.Violate(sc, sig, what, replayCase{Level: lv, Case: b.c, CaseText: b.c.String(), Arrival: arrival, Scenario: ck.scn})
 	}
+}
+
+func (r *runner) descr(lv string, b *built, arrival []int, ck *checker) {
+	sc := r.res.Scenario(ck.scn)
+	sc.States++
+	sc.Executions++
+	sc.Transitions += int64(len(arrival))
+	sc.Outcome(ck.obs.String())
+	r.report(lv, b, arrival, ck)
 }
 
 func arrivalText(a []int) string {
@@ -231,9 +263,19 @@ func (r *runner) oneCase(lv level, c Case) {
 			}
 			scI.Executions++
 			scI.Transitions += int64(len(arrival))
+			if withDel || outOfDateOrder(c, arrival) {
+				scI.Nontrivial++ // delete claims present, or some claim arrives before an earlier-dated one
+			}
 			ck := b.checkCorpus(scInc, x.Index, corp, arrival)
 			scI.Outcome(ck.obs.String())
 			r.report(lv.Name, b, arrival, ck)
+			// Describe: every arrival order when delete claims are present, else the first
+			desc := lv.Desc && (withDel || ai == 0)
+			if desc {
+				cur = scDescInc
+				r.descr(lv.Name, b, arrival, b.checkDescribe(scDescInc, x.Index, corp, arrival))
+				cur = scInc
+			}
 			kvs := []string{kvHash(x.KV)}
 			kvsrc := []sorted.KeyValue{x.KV}
 
@@ -252,6 +294,10 @@ func (r *runner) oneCase(lv level, c Case) {
 				ckl := b.checkIndexRows(scLive, xl.Index)
 				scL.Outcome(ckl.obs.String())
 				r.report(lv.Name, b, arrival, ckl)
+				if desc {
+					cur = scDescLive
+					r.descr(lv.Name, b, arrival, b.checkDescribe(scDescLive, xl.Index, nil, arrival))
+				}
 				kvs = append(kvs, kvHash(xl.KV))
 				kvsrc = append(kvsrc, xl.KV)
 			}
@@ -274,6 +320,10 @@ func (r *runner) oneCase(lv level, c Case) {
 				ck2 := b.checkCorpus(scLoaded, ix, corp2, arrival)
 				scLd.Outcome(ck2.obs.String())
 				r.report(lv.Name, b, arrival, ck2)
+				if lv.Desc {
+					cur = scDescLoaded
+					r.descr(lv.Name, b, arrival, b.checkDescribe(scDescLoaded, ix, corp2, arrival))
+				}
 
 				cur = scRestart
 				ix3, _, err := reopen(kvsrc[i], false)
@@ -290,8 +340,22 @@ func (r *runner) oneCase(lv level, c Case) {
 		}()
 	}
 	if len(loadedSeen) > 1 {
-		r.res.Scenario(scLoaded).Nontrivial++ // row set depended on the arrival order
+		scLd.Note = "the final row set of at least one case depended on the arrival order (each distinct row set was loaded)"
 	}
+}
+
+func outOfDateOrder(c Case, arrival []int) bool {
+	last := 0
+	for _, i := range arrival {
+		if i < 0 {
+			continue
+		}
+		if c[i].Rank < last {
+			return true
+		}
+		last = c[i].Rank
+	}
+	return false
 }
 
 func TestCheck(t *testing.T) {
@@ -332,7 +396,11 @@ func TestCheck(t *testing.T) {
 			r.oneCase(lv, c)
 			done++
 		}
-		for _, n := range []string{scInc, scLive, scLoaded, scRestart} {
+		names := []string{scInc, scLive, scLoaded, scRestart}
+		if lv.Desc {
+			names = append(names, scDescInc, scDescLive, scDescLoaded)
+		}
+		for _, n := range names {
 			sc := res.Scenario(n)
 			sc.Bound += fmt.Sprintf("%s: %d claim sets; ", lv.Name, len(cases))
 			if cut {
